@@ -659,8 +659,19 @@ def can_end_without_value(cfg, funcnode, good=None):
         if isinstance(n, ast.Return) and n.value is not None and not (isinstance(n.value, ast.Constant) and n.value.value is None):
             if good is None or good(n):
                 ok_ids += cfg.ids(n)
-    r = cfg.reach([cfg.entry], avoid=set(ok_ids), exc=False)
-    return cfg.exit in r
+    ok_ids = set(ok_ids)
+    seen, stack = set(), [cfg.entry]
+    while stack:
+        n = stack.pop()
+        if n in seen:
+            continue
+        seen.add(n)
+        for b, lab in cfg.succ[n]:
+            # a proper return ends its path - except that evaluating its expression may raise into a handler of the function
+            if n in ok_ids and lab != 'exc':
+                continue
+            stack.append(b)
+    return cfg.exit in seen
 
 
 # every public helper of this module is available through `from sa.lib import *`
